@@ -98,6 +98,17 @@ def check_slice(ctx, case):
         ctx.fail("slice [{}:{}] is {!r} instead of the string slice {!r}".format(a, b, str(sl.seq), wd[a:b]), case)
     if str(sl.annotations.get("topology", "")).lower() == "circular":
         ctx.fail("a slice claims circular topology", case)
+    # extended slices: any step, as for a string (per-letter values follow)
+    for st_ in (case.get("steps") or ()):
+        try:
+            es = rec[a:b:st_]
+        except Exception as e:  # noqa
+            ctx.fail("slice [{}:{}:{}] raises {}".format(a, b, st_, type(e).__name__), case)
+            continue
+        if str(es.seq) != wd[a:b:st_]:
+            ctx.fail("slice [{}:{}:{}] is {!r} instead of the string slice {!r}".format(a, b, st_, str(es.seq), wd[a:b:st_]), case)
+        if type(es) is not SeqRecord:
+            ctx.fail("an extended slice is a {} instead of a plain SeqRecord".format(type(es).__name__), case)
     ctx.note("slice-of:" + how)
     ctx.case(case, nontrivial=len(wd[a:b]) > 0)
     ctx.op(("SLICE", wd, a, b, feats), case)
@@ -205,6 +216,10 @@ def run(ctx):
             q = (wd * 2)[: n + rng.randint(1, 3)]
         else:
             q = gen.rnd(rng, rng.randint(0, 4))
+        if q and rng.random() < 0.15:
+            # a query is text: an ambiguity letter in it is a letter like any other, not a wildcard
+            i = rng.randrange(len(q))
+            q = q[:i] + rng.choice("NRYSWKMBDHVn") + q[i + 1:]
         rots = sorted({0, n - 1, rng.randrange(n), rng.randrange(n)}) if n > 12 else list(range(n))
         ctx.guard(check_membership, {"word": wd, "query": q, "rots": rots})
     for _ in range(ctx.budget(300, 20000)):
@@ -214,7 +229,8 @@ def run(ctx):
         b = rng.choice([None, rng.randint(-n - 2, n + 2)])
         how = rng.choice(["declared", "declared", "bare", "other-annotations", "wrapped", "rotated", "rc"])
         ctx.guard(check_slice, {"word": wd, "a": a, "b": b, "feats": feats_to_json(gen.gen_features(rng, n, 3)),
-                                "how": how, "topo": rng.choice(["circular", "Circular", "CIRCULAR"])})
+                                "how": how, "topo": rng.choice(["circular", "Circular", "CIRCULAR"]),
+                                "steps": rng.sample([-3, -2, -1, 1, 2, 3], 2) if rng.random() < 0.5 else []})
     for _ in range(ctx.budget(40, 2000)):
         wd = gen.word(rng)
         ctx.guard(check_object_behaviour, {"word": wd, "feats": feats_to_json(gen.gen_features(rng, len(wd), 2))})
